@@ -134,9 +134,14 @@ MagicOK(f, h, g) ==
 
 Bases == ndJsonDeserialize(IOEnv.IDENT_BASES)
 P     == ndJsonDeserialize(IOEnv.IDENT_PARAMS)[1]
-   \* [target, bigtarget, biglen, phase, alllen, nflip, flipk, nrand, maxfaults (1 | 2), sel (sequence of base ids)]
-   \* target = number of field faults wanted per base (0 = all of them): the fault space of a base with more
-   \* is strided, the phase of the stride comes from the seed; bases of at most alllen bytes are never strided
+   \* The fault space is a FIXED, seed-independent universe U; the thorough tier runs all of it, the quick tier a
+   \* subset of it chosen by the seed (so a seed can never reach an input the thorough tier does not run).
+   \* universe: utarget / ubigtarget = field faults per base (0 = all; bases above biglen bytes cost more per run),
+   \*           a base with more is strided from index 0; bases of at most alllen bytes are never strided and get
+   \*           every truncation length; nflip flips per kind, nrand strings per class (both drawn by a rng that
+   \*           depends on the descriptor only); maxfaults = 1 (single faults) | 2 (pairs)
+   \* subset:   qtarget / qbigtarget (0 = the whole universe), qalllen <= alllen, qflip <= nflip, qrand <= nrand,
+   \*           psub (pairs: one of every psub), phase (= the seed); sel = sequence of base ids
 
 Op(k, o, n, be, c, i, nm) == [k |-> k, o |-> o, n |-> n, be |-> be, c |-> c, i |-> i, nm |-> nm]
 
@@ -151,10 +156,17 @@ TextClasses == <<"zero", "one", "max", "inc", "dec", "nonhex", "lower", "empty",
                  "zero+fix", "one+fix", "max+fix", "inc+fix", "dec+fix">>
 ClassesOf(b) == IF Bases[b].kind = "text" THEN TextClasses ELSE BinClasses
 
-TargetOf(b) == IF Bases[b].len > P.biglen THEN P.bigtarget ELSE P.target   \* big bases cost more per run
-StrideOf(b) == IF TargetOf(b) = 0 \/ Bases[b].len <= P.alllen THEN 1
-               ELSE LET q == (Bases[b].nf * Len(ClassesOf(b))) \div TargetOf(b) IN IF q < 1 THEN 1 ELSE q
-Keep(b, x)  == (x % StrideOf(b)) = (P.phase % StrideOf(b))
+Big(b)     == Bases[b].len > P.biglen
+NOps(b)    == Bases[b].nf * Len(ClassesOf(b))
+UStride(b) == LET t == IF Big(b) THEN P.ubigtarget ELSE P.utarget IN
+              IF t = 0 \/ Bases[b].len <= P.alllen THEN 1
+              ELSE LET q == NOps(b) \div t IN IF q < 1 THEN 1 ELSE q
+QTarget(b) == IF Big(b) THEN P.qbigtarget ELSE P.qtarget
+QStride(b) == IF QTarget(b) = 0 \/ Bases[b].len <= P.qalllen THEN 1
+              ELSE LET q == (NOps(b) \div UStride(b)) \div QTarget(b) IN IF q < 1 THEN 1 ELSE q
+InU(b, x)  == x % UStride(b) = 0                                             \* in the universe
+Keep(b, x) == InU(b, x) /\ ((x \div UStride(b)) % QStride(b)) = (P.phase % QStride(b))   \* ... and in this run
+Picked(n, q) == { ((P.phase + k) % n) + 1 : k \in 0..(q - 1) }              \* q of the indices 1..n
 
 SetOps(b) ==
   LET R == Bases[b].regions C == ClassesOf(b) IN
@@ -166,8 +178,8 @@ SetOps(b) ==
 
 TruncLens(b) ==
   LET R == Bases[b].regions n == Bases[b].len IN
-  (IF n <= P.alllen THEN 0..(n - 1) ELSE {})
-  \cup { (n * k) \div 16 : k \in {x \in 1..15 : TargetOf(b) = 0 \/ TargetOf(b) >= 100 \/ Keep(b, x)} } \cup { n - 1 }
+  (IF n <= P.qalllen THEN 0..(n - 1) ELSE {})
+  \cup { (n * k) \div 16 : k \in {x \in 1..15 : QTarget(b) = 0 \/ x % 4 = P.phase % 4} } \cup { n - 1 }
   \cup UNION { UNION { {R[ri].o + R[ri].f[fi][2], R[ri].o + R[ri].f[fi][2] + 1}
                        : fi \in {x \in 1..Len(R[ri].f) : Keep(b, ri * 31 + x * 7)} }
                : ri \in 1..Len(R) }
@@ -178,12 +190,12 @@ TruncOps(b) == { Op("trunc", 0, l, 0, "-", 0, "-") : l \in {x \in TruncLens(b) :
 FlipKinds == << <<1, "tables">>, <<4, "head64">>, <<2, "tables">>, <<1, "head64">>, <<4, "tables">>, <<2, "head512">>,
                <<1, "any">>, <<4, "any">>, <<1, "head512">>, <<2, "head64">>, <<4, "head512">>, <<2, "any">> >>
 FlipOps(b) == { Op("flip", 0, FlipKinds[k][1], 0, FlipKinds[k][2], i, "-") :
-                  k \in {x \in 1..Len(FlipKinds) : x <= P.flipk}, i \in 1..P.nflip }
+                  k \in 1..Len(FlipKinds), i \in Picked(P.nflip, P.qflip) }
 
 RandFlavours == {"bytes", "ascii", "hexrec", "srec", "magicELF32", "magicELF64", "magicMZ", "magicMachO32",
                  "magicMachO64", "magicFat", "coffish"}
 RandLens     == {0, 1, 2, 3, 4, 7, 8, 15, 16, 20, 21, 40, 52, 64, 65, 128, 300, 1000}
-RandOps == { Op("rand", 0, n, 0, fl, i, "-") : fl \in RandFlavours, n \in RandLens, i \in 1..P.nrand }
+RandOps == { Op("rand", 0, n, 0, fl, i, "-") : fl \in RandFlavours, n \in RandLens, i \in Picked(P.nrand, P.qrand) }
 
 FaultOps(b) == IF b = 0 THEN RandOps ELSE SetOps(b) \cup TruncOps(b) \cup FlipOps(b)
 
@@ -198,11 +210,14 @@ MaxFaultsMC == 1
 
 (* gen: the fault sequences of a base. They are drawn in Init - all of them as initial states - because TLC does  *)
 (* not memoise FaultOps(b) between states: drawn by successive Corrupt steps the set would be rebuilt per state.   *)
+OpHash(x) == x.o + 7 * x.n + 13 * x.i
 FaultSeqs(b) ==
   LET F == FaultOps(b) IN
   IF P.maxfaults = 1
   THEN (IF b > 0 THEN {<<>>} ELSE {}) \cup { <<x>> : x \in F }
-  ELSE { <<x, y>> : x \in F, y \in F }
+  ELSE { <<x>> : x \in F }            \* the atoms of the pairs, alone (all of them, whatever the seed)
+       \cup UNION { { <<x, y>> : y \in {z \in F : (OpHash(x) + 3 * OpHash(z)) % P.psub = P.phase % P.psub} }
+                    : x \in F }
 
 Init == /\ st = S0
         /\ IF Mode = "gen"
